@@ -18,6 +18,7 @@ struct Sent
     bool segmented;
     int endpoint;
     std::vector<int> frames;  // indices (into Stream::frames) of the frames carrying it
+    bool invalid = false;     // sent with the error-in-payload flag or payload type 0: the decoder need not deliver it (C04's business)
 };
 
 struct OFrame
@@ -92,6 +93,15 @@ inline StreamSet genStreams(Rng& r, size_t nEndpoints, size_t targetFrames)
                 s.data = content(s.id, r.range(4, 40));
                 s.segmented = false;
                 s.endpoint = static_cast<int>(e);
+                if (r.chance(1, 12))
+                {
+                    // a message an encoder may legally send but that the decoder treats as invalid
+                    s.invalid = true;
+                    if (r.chance(1, 2))
+                        s.flags |= wire::CF_ERROR;
+                    else
+                        s.ptype = 0;
+                }
                 GMsg m;
                 m.ts = s.ts;
                 m.idWord = s.idWord;
@@ -284,6 +294,10 @@ inline void runFaulted(Ctx& c, const StreamSet& S, const std::vector<FFrame>& L,
     std::map<uint32_t, int> byId;
     for (size_t i = 0; i < S.msgs.size(); ++i)
         byId[S.msgs[i].id] = static_cast<int>(i);
+    for (auto& f : L)
+        for (int mi : S.frames[static_cast<size_t>(f.orig)].msgs)
+            if (S.msgs[static_cast<size_t>(mi)].invalid)
+                c.count("invalid_messages_fed_between_the_others");
 
     // O2: deliveries that must happen, keyed by call index
     std::map<size_t, std::vector<int>> mustDeliver;
@@ -300,8 +314,13 @@ inline void runFaulted(Ctx& c, const StreamSet& S, const std::vector<FFrame>& L,
                 continue;
             if (of.role == 0)
             {
+                // (the messages behind an invalid one in the same frame are not demanded: the decoder stops reading the frame there)
                 for (int mi : of.msgs)
+                {
+                    if (S.msgs[static_cast<size_t>(mi)].invalid)
+                        break;
                     mustDeliver[idxs[p]].push_back(mi);
+                }
             }
             else if (of.role == 3)
             {
@@ -357,6 +376,11 @@ inline void runFaulted(Ctx& c, const StreamSet& S, const std::vector<FFrame>& L,
             }
             deliveredIdx.push_back(mi);
             const Sent& m = S.msgs[static_cast<size_t>(mi)];
+            if (m.invalid)
+            {
+                c.count("invalid_messages_delivered_anyway");
+                continue;
+            }
             const auto& ep = S.eps[static_cast<size_t>(m.endpoint)];
             bool same = s.payload.bytes == m.data && s.ts == m.ts && (s.flags & ~wire::CF_SEG) == m.flags && s.payload.rawType == m.ptype &&
                         s.device == ep.first && s.stream == ep.second && s.valid;
